@@ -74,9 +74,31 @@ def install(factory):
     return lambda: _current["last"]
 
 
-def solve_with(pep, factory, prepare=None):
-    """run pep.solve through `factory`'s wrapper; `prepare(wrapper)` is not available before construction, so hooks
-    are attached through the factory itself.  Returns (wrapper, value returned by solve)."""
+def solve_with(pep, factory, solve=None):
+    """run pep.solve(wrapper="harness") through `factory`'s wrapper.  `solve` replaces the bound method when
+    PEP.solve itself is intercepted (shipped examples).  Returns (wrapper, value returned by solve)."""
     last = install(factory)
-    out = pep.solve(wrapper=NAME, verbose=0)
+    out = (solve or type(pep).solve)(pep, wrapper=NAME, verbose=0)
     return last(), out
+
+
+class InterceptSolve(object):
+    """while active, every PEP.solve(...) call, whatever its arguments, is handed to `handler(pep, original_solve)`
+    (class attribute replaced from the harness; restored on exit).  Used to record the solves of the shipped example
+    files, some of which do not forward a `wrapper=` argument."""
+    def __init__(self, handler):
+        self.handler = handler
+
+    def __enter__(self):
+        from PEPit.pep import PEP
+        self.cls = PEP
+        self.orig = PEP.__dict__["solve"]
+        handler, orig = self.handler, self.orig
+
+        def solve(pep, *args, **kwargs):
+            return handler(pep, orig)
+        PEP.solve = solve
+        return self
+
+    def __exit__(self, *a):
+        self.cls.solve = self.orig
